@@ -377,7 +377,10 @@ func (bn *bench) stop(timeout time.Duration) {
 	bn.stopped = true
 	bn.rec.Log(inproc.Event{"e": "stopcall"})
 	t0 := time.Now()
-	bn.stopErr = bn.b.Stop(timeout)
+	// Srv.Stop directly (not inproc's Broker.Stop, which also forgets the broker): hook events after Stop are evidence
+	ctx, cancel := context.WithTimeout(context.Background(), timeout)
+	bn.stopErr = bn.b.Srv.Stop(ctx)
+	cancel()
 	bn.stopDur = time.Since(t0)
 	bn.rec.Log(inproc.Event{"e": "stopret", "err": bn.stopErr != nil})
 }
@@ -805,7 +808,20 @@ func runScript(sc *Scenario) {
 				div("no-close-after-protocol-error:"+ver, fmt.Sprintf("connection %d (%s): %d ms after a packet that is a protocol error the broker has neither closed the connection nor answered; unanswered requests: %v",
 					k, ver, sc.RequestMs, un), nil)
 			} else if len(un) > 0 {
-				div("unanswered:"+strings.Join(un, ",")+":"+ver, fmt.Sprintf("connection %d (%s): no answer to %v within %d ms and the connection is still open", k, ver, un, sc.RequestMs), nil)
+				// why?  goroutines of the broker parked somewhere they should not be (a connection idling in its socket read is normal)
+				gs, raw := gmqttGoroutines()
+				var stuck []gor
+				for _, g := range gs {
+					if g.Root && g.Class != "readloop-in-socket-read" && !strings.HasPrefix(g.Class, "service:") {
+						stuck = append(stuck, g)
+					}
+				}
+				sig := "unanswered:" + strings.Join(un, ",") + ":" + ver
+				if len(stuck) > 0 {
+					sig += ":" + causes(stuck)
+					res.Goroutines = raw
+				}
+				div(sig, fmt.Sprintf("connection %d (%s): no answer to %v within %d ms and the connection is still open; parked: %s", k, ver, un, sc.RequestMs, causes(stuck)), stuck)
 			}
 		}
 		p.mu.Unlock()
@@ -1032,7 +1048,11 @@ func (s *stormClient) run(stopping *int32, wg *sync.WaitGroup) {
 	}
 	topics := []string{"s/a", "s/b", "s/c"}
 	for op := 0; op < s.sc.Storm.Ops; op++ {
-		if atomic.LoadInt32(stopping) == 2 {
+		if atomic.LoadInt32(stopping) != 0 {
+			// Stop has been called: keep the connection (if any) open until the driver has looked at what survived
+			for atomic.LoadInt32(stopping) != 2 {
+				time.Sleep(5 * time.Millisecond)
+			}
 			return
 		}
 		if c == nil {
@@ -1139,36 +1159,38 @@ func runStorm(sc *Scenario) {
 	time.Sleep(time.Duration(at) * time.Millisecond)
 	atomic.StoreInt32(&stopping, 1)
 	bn.stop(time.Duration(sc.StopMs) * time.Millisecond)
-	// connections that were not registered when Stop looked are not closed by it (recorded finding): tell them apart
-	// before the clients go away
+	// What is alive at the instant Stop returned?  The hook log tells for every connection that has done anything:
+	// never registered / registered while Stop ran / registered before Stop began.  (The clients keep their sockets open.)
+	un, late, reg := unfinishedConns(bn.rec)
+	if len(reg) > 0 && bn.stopErr == nil {
+		time.Sleep(100 * time.Millisecond) // a connection that was closing by itself: its `closed` event is microseconds away
+		_, _, reg = unfinishedConns(bn.rec)
+	}
+	res.Stats["conns_alive_at_stop_return_never_registered"] = len(un)
+	res.Stats["conns_alive_at_stop_return_registered_during_stop"] = len(late)
+	res.Stats["conns_alive_at_stop_return_registered_before_stop"] = len(reg)
 	gs, raw := settleGoroutines(1200 * time.Millisecond)
 	atomic.StoreInt32(&stopping, 2)
-	if bn.stopErr != nil {
+	onlyConn := true
+	for _, g := range gs {
+		if strings.HasPrefix(g.Class, "service:") || strings.HasPrefix(g.Class, "other:") || g.Class == "will-timer-pending" {
+			onlyConn = false
+		}
+	}
+	switch {
+	case bn.stopErr != nil:
 		res.Goroutines = raw
 		div("stop-timeout:"+causes(gs), fmt.Sprintf("storm: Stop did not return within %d ms: %v; parked: %s", sc.StopMs, bn.stopErr, causes(gs)), gs)
-	} else if len(gs) > 0 {
-		// which connections are these?  the ones with exits still missing in the hook log
-		un, reg := unfinishedConns(bn.rec)
-		res.Stats["conns_alive_after_stop_unregistered"] = len(un)
-		res.Stats["conns_alive_after_stop_registered"] = len(reg)
-		if len(reg) > 0 {
-			res.Goroutines = raw
-			div("alive-after-stop:registered-connection:"+causes(gs), fmt.Sprintf("storm: Stop returned nil but %d connections that were registered are not closed: %v", len(reg), reg), gs)
-		} else {
-			onlyConn := true
-			for _, g := range gs {
-				if strings.HasPrefix(g.Class, "service:") || strings.HasPrefix(g.Class, "other:") || g.Class == "will-timer-pending" {
-					onlyConn = false
-				}
-			}
-			if onlyConn {
-				res.Goroutines = raw
-				div("alive-after-stop:readloop-in-socket-read", fmt.Sprintf("storm: Stop returned nil; %d connections that had not (yet) registered when Stop ran were neither closed nor awaited (%d goroutines)", len(un), len(gs)), gs)
-			} else {
-				res.Goroutines = raw
-				div("alive-after-stop:"+causes(gs), fmt.Sprintf("storm: Stop returned nil but goroutines of the broker are alive: %s", causes(gs)), gs)
-			}
-		}
+	case len(reg) > 0:
+		res.Goroutines = raw
+		div("alive-after-stop:registered-connection:"+causes(gs), fmt.Sprintf("storm: Stop returned nil but %d connections that were registered before Stop began are not closed: %v", len(reg), reg), gs)
+	case len(un)+len(late) > 0 || (len(gs) > 0 && onlyConn):
+		res.Goroutines = raw
+		div("alive-after-stop:readloop-in-socket-read", fmt.Sprintf("storm: when Stop returned nil, %d connections that were not in srv.clients when Stop looked (%d registered while Stop ran, %d had not registered) had been neither closed nor awaited; %d goroutines of such connections still alive 1.2 s later",
+			len(un)+len(late), len(late), len(un), len(gs)), map[string]interface{}{"never_registered": un, "registered_during_stop": late, "goroutines": gs})
+	case len(gs) > 0:
+		res.Goroutines = raw
+		div("alive-after-stop:"+causes(gs), fmt.Sprintf("storm: Stop returned nil but goroutines of the broker are alive: %s", causes(gs)), gs)
 	}
 	if bn.stopErr == nil {
 		u, o := atomic.LoadInt32(&bn.p.unloads), atomic.LoadInt32(&bn.p.onstops)
@@ -1190,14 +1212,19 @@ func runStorm(sc *Scenario) {
 	res.Trace = lifecycle(bn.rec)
 }
 
-// unfinishedConns: connections that appear in the hook log without a `closed` event, split by whether they ever registered.
-func unfinishedConns(rec *inproc.Recorder) (unreg, reg []string) {
+// unfinishedConns: connections that appear in the hook log without a `closed` event: never registered, registered after
+// stop.begin, registered before stop.begin.
+func unfinishedConns(rec *inproc.Recorder) (unreg, late, reg []string) {
 	seen := map[string]bool{}
 	closed := map[string]bool{}
-	registered := map[string]bool{}
+	registered := map[string]int{}
+	begun := false
 	for _, e := range rec.Events() {
 		if e["e"] != "hook" {
 			continue
+		}
+		if e["h"] == "stop.begin" {
+			begun = true
 		}
 		conn, _ := e["conn"].(string)
 		if conn == "" {
@@ -1208,19 +1235,27 @@ func unfinishedConns(rec *inproc.Recorder) (unreg, reg []string) {
 		case "closed":
 			closed[conn] = true
 		case "register":
-			registered[conn] = true
+			if begun {
+				registered[conn] = 2
+			} else {
+				registered[conn] = 1
+			}
 		}
 	}
 	for c := range seen {
 		if !closed[c] {
-			if registered[c] {
+			switch registered[c] {
+			case 1:
 				reg = append(reg, c)
-			} else {
+			case 2:
+				late = append(late, c)
+			default:
 				unreg = append(unreg, c)
 			}
 		}
 	}
 	sort.Strings(unreg)
+	sort.Strings(late)
 	sort.Strings(reg)
 	return
 }
